@@ -1,6 +1,8 @@
 package p_states
 
 import (
+	"bytes"
+	"context"
 	"fmt"
 	"runtime"
 	"strings"
@@ -200,6 +202,7 @@ type bbMachineOpts struct {
 	checkC05   bool
 	concurrent bool
 	rounds     bool // adds the "severalRounds" action (a height that needs several rounds, with stragglers); C04 only
+	held       bool // adds the "heldThenMoved" action (a held draw, the last point moves on, then the box's periodic count of held records runs); C04 only
 }
 
 const bbSeveralRoundsMark = "several-round height"
@@ -231,16 +234,33 @@ func bbMachine(rt *rapid.T, r *ev.Rec, o bbMachineOpts, c05 *c05State) (w *bbWor
 		defer c05.detach()
 	}
 
+	// stage points for which the box was observed (at a moment without any box goroutine in flight and with the voteproof
+	// channel drained) to refuse a fresh valid ballot of a suffrage node that had not voted there, as old: the box does not
+	// vote on them any more, and because the last point only moves forward it never will again. value: the observation.
+	stale := map[bbKey]string{}
+
+	judge := func(vps []base.Voteproof) {
+		for _, vp := range vps {
+			w.emitted = append(w.emitted, vp)
+
+			if !bbCheckEmitted(rt, r, w, vp) {
+				continue
+			}
+
+			counted++
+
+			// (1b) handed out after the box had stopped voting on its stage point (judged by event order)
+			if obs, found := stale[bbKey{Point: vp.Point().String(), SC: bbVPIsSC(vp)}]; found {
+				r.Violation(rt, "emitted-for-point-no-longer-voted", "n=%d t=%v: voteproof for %v was handed out after the box had stopped voting on that stage point (%s)\n  vp=%s\n  last point now=%s\n  history:\n    %s",
+					w.n, w.th, vp.Point(), obs, bbDescVP(vp), bbDescLast(w.box.LastPoint()), strings.Join(w.history, "\n    "))
+			}
+		}
+	}
+
 	check := func() {
 		w.settle()
 
-		for _, vp := range w.drain() {
-			w.emitted = append(w.emitted, vp)
-
-			if bbCheckEmitted(rt, r, w, vp) {
-				counted++
-			}
-		}
+		judge(w.drain())
 
 		if c05 != nil {
 			c05.check(rt, r, w)
@@ -387,6 +407,21 @@ func bbMachine(rt *rapid.T, r *ev.Rec, o bbMachineOpts, c05 *c05State) (w *bbWor
 			}
 
 			wg.Wait()
+		}
+	}
+
+	if o.held {
+		actions["heldThenMoved"] = func(t *rapid.T) {
+			if w.n < 3 {
+				t.Skip("expels need >= 3 nodes")
+			}
+
+			bbHeldThenMoved(t, w, check, judge, stale)
+		}
+
+		// sometimes the history opens with it: the box is fresh then and every stage point is still votable
+		if w.n >= 3 && rapid.IntRange(0, 2).Draw(rt, "openWithHeldThenMoved") == 0 {
+			bbHeldThenMoved(rt, w, check, judge, stale)
 		}
 	}
 
@@ -579,6 +614,251 @@ func bbSeveralRounds(t *rapid.T, w *bbWorld, check func()) {
 	check()
 }
 
+const bbHeldMark = "held-then-moved height"
+
+func bbVPIsSC(vp base.Voteproof) bool {
+	sfs := vp.SignFacts()
+
+	return len(sfs) > 0 && bbIsSC(sfs[0].Fact())
+}
+
+func bbDescLast(l isaac.LastPoint) string {
+	if l.IsZero() {
+		return "none"
+	}
+
+	return fmt.Sprintf("%v majority=%v suffrage-confirm=%v", l.StagePoint, l.IsMajority(), l.IsSuffrageConfirm())
+}
+
+// bbQuiet reports whether no goroutine started by a ballotbox (deferred counting, new-ballot callback, ticker) exists any
+// more: no goroutine of the process has a frame in, or was created from, the ballotbox's package. Exact (taken from the
+// goroutine dump, not from a goroutine count); waiting longer than the budget gives false (inconclusive), never a verdict.
+func bbQuiet(budget time.Duration) bool {
+	deadline := time.Now().Add(budget)
+	buf := make([]byte, 1<<20)
+
+	for i := 0; ; i++ {
+		n := runtime.Stack(buf, true)
+		if n < len(buf) && !bytes.Contains(buf[:n], []byte("mitum/isaac/states.")) {
+			return true
+		}
+
+		if time.Now().After(deadline) {
+			return false
+		}
+
+		if i < 50 {
+			runtime.Gosched()
+		} else {
+			time.Sleep(100 * time.Microsecond)
+		}
+	}
+}
+
+// bbHeldThenMoved plays the history in which the box's periodic count of held records (the ticker of the started box)
+// matters: at INIT(h,r+1) the nodes that moved to the next round split between several facts and at least one of their
+// ballots carries expels, so the result is a draw whose expels can not be counted yet and the box holds that voteproof back;
+// meanwhile ACCEPT(h,r) is decided (the remaining ballots arrive, or the consensus states set the last point from the
+// voteproof they got elsewhere); sometimes the next height's first INIT also ends in such a held draw; then the box runs
+// for a while as a started daemon, as it does in a node, so that its ticker counts the held records. Height, round, voters,
+// facts, the signing of the expel, the way the last point moves and the moments in between are drawn.
+//
+// Oracle clause added with it (first clause of the statement): once the box, with nothing in flight and its channel drained,
+// refuses a fresh valid ballot of a suffrage node that has not voted at a stage point as old, it does not vote on that point
+// any more; a voteproof it counted for that point and hands out later is not for a stage point it is voting on.
+func bbHeldThenMoved(t *rapid.T, w *bbWorld, check func(), judge func([]base.Voteproof), stale map[bbKey]string) {
+	h := int64(rapid.IntRange(33, 35).Draw(t, "heldHeight"))
+	r0 := uint64(rapid.IntRange(0, 1).Draw(t, "heldRound"))
+
+	w.mu.Lock()
+	w.history = append(w.history, fmt.Sprintf("%s %d round %d", bbHeldMark, h, r0))
+	w.mu.Unlock()
+
+	vote := func(d bbBallotDesc) bool {
+		_, voted, err := w.vote(d)
+		if err != nil {
+			t.Fatalf("Vote error: %v", err)
+		}
+
+		return voted
+	}
+
+	quiet := func() {
+		if rapid.IntRange(0, 5).Draw(t, "heldNoPause") != 0 {
+			w.settle()
+		}
+	}
+
+	// the nodes present at INIT(hh,rr) split between two or three facts, one of them carried by ballots with expels. Reports
+	// whether every ballot was voted and the exact tally of them is a draw (then the box is expected to hold the voteproof).
+	hold := func(hh int64, rr uint64, absent int) (expectHeld bool) {
+		ways := rapid.IntRange(2, 3).Draw(t, "heldWays")
+		kinds := rapid.SampledFrom([][]string{{"initExpel", "init", "initX"}, {"initExpel", "initX", "initY"}, {"init", "initExpel", "initX"}, {"initX", "initY", "initExpel"}}).Draw(t, "heldKinds")[:]
+		expelBy := rapid.SampledFrom([]string{"full", "full", "full", "one"}).Draw(t, "heldExpelBy")
+
+		if ways == 2 && kinds[2] == "initExpel" {
+			kinds = []string{kinds[2], kinds[0], kinds[1]}
+		}
+
+		var ds []bbBallotDesc
+
+		for i, j := 0, 0; i < w.n; i++ {
+			if i == absent {
+				continue
+			}
+
+			d := bbBallotDesc{Height: hh, Round: rr, Kind: kinds[j%ways], Node: i, ExpelBy: expelBy}
+			j++
+
+			// built (signed) beforehand: the ballots of a round arrive in a burst
+			if _, valid := w.cachedBallot(d); valid {
+				ds = append(ds, d)
+			}
+		}
+
+		counts := map[string]int{}
+		expectHeld = true
+
+		for _, d := range ds {
+			bl, _ := w.cachedBallot(d)
+
+			if !vote(d) {
+				expectHeld = false
+			}
+
+			counts[bl.SignFact().Fact().Hash().String()]++
+		}
+
+		res, _ := bbTally(w.n, bbT10(w.th), counts)
+
+		return expectHeld && res == base.VoteResultDraw
+	}
+
+	// (1) INIT(h,r0+1) ends in a draw with expels that can not be counted: held. One node has not voted there yet.
+	absent := rapid.IntRange(0, w.n-1).Draw(t, "heldAbsent")
+	p := base.NewStagePoint(bbPoint(h, r0+1), base.StageINIT)
+	pkey := bbKey{Point: p.String()}
+
+	hold(h, r0+1, absent)
+	quiet()
+
+	// (2) ACCEPT(h,r0) is decided
+	switch rapid.IntRange(0, 2).Draw(t, "heldMove") {
+	case 0:
+		vp := gen.FullACCEPTVoteproof(w.acceptFact(h, r0, 0, nil), w.locals[:w.n], w.th, nil)
+		ok := w.box.SetLastPointFromVoteproof(vp)
+		w.history = append(w.history, fmt.Sprintf("setLastPoint %v majority=true -> %v", vp.Point(), ok))
+	default:
+		k := rapid.SampledFrom([]int{w.n, w.n, w.n - 1}).Draw(t, "heldAcceptVoters")
+		start := rapid.IntRange(0, w.n-1).Draw(t, "heldAcceptStart")
+
+		for i := 0; i < k; i++ {
+			vote(bbBallotDesc{Height: h, Round: r0, Kind: "accept", Node: (start + i) % w.n, ExpelBy: "full"})
+		}
+	}
+
+	quiet()
+
+	// (3) sometimes the first INIT of the next height ends in a held draw, too (still voted on)
+	var q base.StagePoint
+
+	if rapid.IntRange(0, 3).Draw(t, "heldNext") != 0 {
+		if hold(h+1, 0, rapid.IntRange(-1, w.n-1).Draw(t, "heldNextAbsent")) {
+			q = base.NewStagePoint(bbPoint(h+1, 0), base.StageINIT)
+		}
+	}
+
+	// (4) observe whether the box still votes on INIT(h,r0+1): nothing of the box in flight, everything handed out so far
+	// received and judged, then a fresh valid ballot for that point from a node that has not voted there
+	isquiet := bbQuiet(2 * time.Second)
+
+	check()
+
+	if isquiet && w.sufFound.Load() {
+		probe := -1
+
+		w.mu.Lock()
+		for i := 0; i < w.n && probe < 0; i++ {
+			c := (absent + i) % w.n
+			probe = c
+
+			for _, k := range []bbKey{pkey, {Point: pkey.Point, SC: true}} {
+				for _, sf := range w.offered[k] {
+					if sf.Node().Equal(w.locals[c].Address()) {
+						probe = -1
+					}
+				}
+			}
+		}
+		w.mu.Unlock()
+
+		seen := false
+		for _, vp := range w.emitted {
+			seen = seen || vp.Point().Equal(p)
+		}
+
+		if probe >= 0 && !seen {
+			d := bbBallotDesc{Height: h, Round: r0 + 1, Kind: "init", Node: probe, ExpelBy: "full"}
+
+			if _, valid := w.cachedBallot(d); valid && !vote(d) {
+				if last := w.box.LastPoint(); !last.IsZero() && !isaac.IsNewBallot(last, p, false) {
+					stale[pkey] = fmt.Sprintf("before, with no ballotbox goroutine in flight and the channel drained, Vote refused the ballot %v of a node that had not voted there, last point then=%s", d, bbDescLast(last))
+					w.history = append(w.history, fmt.Sprintf("observed: %v is not voted on any more (last point %s)", p, bbDescLast(last)))
+				}
+			}
+		}
+	}
+
+	// (5) the box runs as a started daemon for a while: its ticker counts the held records. The wait ends when the held
+	// voteproof of the next height arrives (the tick that counts it has gone over every held record before, in stage point
+	// order), when a voteproof for an abandoned stage point arrives, or after a bound (which only ends the wait).
+	w.history = append(w.history, "box runs (ticker)")
+	w.box.SetInterval(time.Millisecond)
+
+	if err := w.box.Start(context.Background()); err != nil {
+		t.Fatalf("start ballotbox: %v", err)
+	}
+
+	stopped := false
+	stop := func() {
+		if !stopped {
+			stopped = true
+			_ = w.box.Stop()
+		}
+	}
+
+	defer stop()
+
+	bound := 12 * time.Millisecond
+	if !q.IsZero() {
+		bound = 500 * time.Millisecond
+	}
+
+	var got []base.Voteproof
+
+	deadline := time.NewTimer(bound)
+	defer deadline.Stop()
+
+wait:
+	for {
+		select {
+		case vp := <-w.box.Voteproof():
+			got = append(got, vp)
+
+			if _, found := stale[bbKey{Point: vp.Point().String(), SC: bbVPIsSC(vp)}]; found || (!q.IsZero() && vp.Point().Equal(q)) {
+				break wait
+			}
+		case <-deadline.C:
+			break wait
+		}
+	}
+
+	stop()
+	w.settle()
+	judge(got)
+	check()
+}
+
 func TestC04(t *testing.T) {
 	r := ev.Start(t, "C04")
 	defer r.Finish()
@@ -586,6 +866,7 @@ func TestC04(t *testing.T) {
 		"actions Vote(real IsValid ballots: honest/conflicting INIT+ACCEPT, suffrage-confirm with an INIT expel voteproof, ballots carrying expels signed fully/by one/with a foreign signer/expired, " +
 		"foreign and wrong-key signers), runs of the same ballot from k nodes, split votes that end in a draw, Count, SetLastPointFromVoteproof, suffrage lookup found/not-found toggles, concurrent voters; " +
 		"a composite action plays a height that needs several rounds (a suffrage-confirm round that mostly stays unfinished, a drawn walk over later stage points whose votes split between two or three facts into draws or majorities, first votes for a still later stage point, late ballots for earlier points of the height, then the remaining votes; quiet moments and other actions drawn in between; half of the histories open with it); " +
+		"a composite action plays a held draw that is overtaken: INIT(h,r+1) splits into a draw with expels that can not be counted (the box holds the voteproof back), ACCEPT(h,r) is decided by ballots or SetLastPointFromVoteproof, sometimes INIT(h+1,0) ends in a held draw as well, then the box runs as a started daemon so that its ticker counts the held records (a third of the histories open with it); before the box runs, with no ballotbox goroutine in flight and the channel drained, a fresh ballot of a node that has not voted at INIT(h,r+1) probes whether that point is still voted on, and a counted voteproof handed out afterwards for a point the box refused as old is a violation; " +
 		"a second phase runs long histories (60 steps, suffrage-confirm-heavy, runs that reach results) so that records are cleaned and recycled; every voteproof received on Voteproof() is judged. non-trivial = history with >=1 counted voteproof and a conflicting ballot, an expel or a concurrent phase; distinct by history")
 	r.Floor(20)
 	r.Assume("every ballot given to Vote satisfies bl.IsValid(networkID) (launch validates before voting)",
@@ -598,13 +879,15 @@ func TestC04(t *testing.T) {
 	r.ShrinkTime(20 * time.Second)
 
 	rapid.Check(t, func(rt *rapid.T) {
-		w, counted := bbMachine(rt, r, bbMachineOpts{maxN: 7, concurrent: true, rounds: true}, nil)
+		w, counted := bbMachine(rt, r, bbMachineOpts{maxN: 7, concurrent: true, rounds: true, held: true}, nil)
 
 		nontrivial := counted > 0 && (w.hadConfl || w.hadExpel || w.hadConc)
 		r.Case(strings.Join(w.history, ";"), nontrivial, fmt.Sprintf("counted:%v", counted > 0), fmt.Sprintf("expel:%v", w.hadExpel), fmt.Sprintf("concurrent:%v", w.hadConc))
 		r.Class("emitted", int64(len(w.emitted)))
 		r.Class("counted", int64(counted))
 		r.Class("histories-with-several-round-height", bbCountMark(w))
+		r.Class("histories-with-held-then-moved-height", bbCountPrefix(w, bbHeldMark))
+		r.Class("histories-with-abandoned-point-observed", bbCountPrefix(w, "observed: "))
 
 		if nontrivial && r.WantSample() {
 			var vps []string
@@ -636,9 +919,11 @@ func TestC04(t *testing.T) {
 	})
 }
 
-func bbCountMark(w *bbWorld) int64 {
+func bbCountMark(w *bbWorld) int64 { return bbCountPrefix(w, bbSeveralRoundsMark) }
+
+func bbCountPrefix(w *bbWorld, prefix string) int64 {
 	for _, h := range w.history {
-		if strings.HasPrefix(h, bbSeveralRoundsMark) {
+		if strings.HasPrefix(h, prefix) {
 			return 1
 		}
 	}
